@@ -76,9 +76,9 @@ func checkC04(c *Ctx) {
 	r.Explanation = "Decides structural necessary conditions of C04 on package cron (parser.go, spec.go, constantdelay.go, doc.go). Only exported API names (Parser.Parse, ParseStandard, ParseOption constants, SpecSchedule and its fields, SpecSchedule.Next, ConstantDelaySchedule, Every) and the standard library are used as anchors; every unexported function, type, field, variable and constant is resolved by ROLE through types and dataflow (the field-table type = the struct with two unsigned fields and a name map of which package-level tables exist, min/max told apart by the table contents; the table of field F = the table Parse parses column F with; the column-order and default lists by their types; the normaliser, the column parser and the descriptor function by the types of the calls Parse makes; the bit-set builder by its signature; the star bit = the constant Next masks Dom/Dow with). Values are compared as TERMS in which same-package callees (functions, methods, closures) are inlined and merges become choices, so a test, step or reset is recognised wherever it is written; branch facts include short-circuit booleans evaluated to a value; validation helpers are consulted through their success returns. Calls through function values whose targets are visible in the package (locals, elements of literal slices/arrays/maps, func-typed fields and package-level variables, closure parameters) and through single-implementation interfaces are followed. Where the shape defeats the term view, the code is interpreted abstractly instead: the package initialiser is evaluated to obtain literal tables (arrays of field tables, maps of builder functions) and Parser.Parse is evaluated on a symbolic expression along every branch, with the normaliser, the column parser and the descriptor function kept as symbolic applications — so an accumulator struct with an index, a loop over a table of field tables or a map of constructors give the same pairing as six closure calls. Search loops may live in phase helpers of Next (a carry is then a return whose boolean result Next branches on to restart the search) and their variables in fields of a local struct (the reaching store is followed); the field-table struct may nest/embed its limits. Function values are resolved in their calling context (a parameter is what the call that entered the function passed, a factory's result is the closure its return makes, with the factory's arguments bound), and variables captured by closures are followed as memory: the content at a point is the last store or the effect of the last call of a closure that writes the variable (which closures write a variable is read off the program text; a call that is handed function values while another writer exists makes the content unknown), so search state kept in captured variables and resets/steps/fix-ups done by closures handed to closures are seen as if written in line. A struct field whose address is kept (a table of output pointers) is not given a content by the term view; the abstract interpretation of Parse follows the pointers instead. " +
 		"Tables (E6): the table each column is parsed with equals that column's row of the 'Allowed values' table of doc.go (seconds: the range of time.Time.Second) and stays below the star bit; month/weekday names map to the numbering of time.Month/time.Weekday; the column order list names the six fields in expression order and each default lies within its table; an omitted optional column is filled with the default of its own field at its own end; the seven predefined schedules of the descriptor function, folded to constants, equal the 'Equivalent To' column of doc.go in the encoding Next reads (value v = bit 1<<v, '*' = documented range plus star bit). " +
 		"Pairing: Parse builds SpecSchedule.F from normalised column #i with places[i] = F; Next and its callees test SpecSchedule.F against the time.Time accessor of F; the day rule (a function, method or the code of Next itself), evaluated symbolically for all 16 assignments of (dom matches, dow matches, dom has star, dow has star), is 'both' when a star is present and 'either' otherwise. " +
-		"Search (minimality): for every search loop of Next, from the term of the instant the loop continues with: it continues while the bit is clear, advances by at most one unit (Add/AddDate/Date(field+1)), sets all lower-order fields to their minimum in the same iteration (before the step, for months) without clearing the field being searched itself (a Truncate coarser than the loop's field restarts the search before t), and on a carry goes back to the top of the search; the carry test must look at the instant the loop continues with (no further Add/AddDate between test and next iteration) and must still fire when the smallest value of the field does not exist on the wall clock (DST gap at local midnight / 30-minute DST); a calendar step (AddDate / Date(field+1)) of the month and day loops is followed by an adjustment that reads the stepped instant (the not-midnight fix-up: the local midnight aimed at may not exist), and a day step by a fixed duration (Add) is only accepted if the wall clock is rebuilt after it; the search starts exactly at t truncated to the second plus one second, gives up with the zero time only for calendar years beyond start year + 5, converts into SpecSchedule.Location and builds every date in a location that can be the schedule's (SpecSchedule.Location, or the zone of an instant converted into it; the caller's zone alone is a violation); every SpecSchedule of the descriptor function carries the location parameter; Parse stores/hands on the time.LoadLocation result of a TZ=/CRON_TZ= prefix or time.Local. " +
-		"Refusal (E7+E2): every error produced in the parser layer (the static call closure of Parse) is returned, tested with a failing return, or parked in a shared error variable (captured variable, *error parameter, named result, error field of a helper's receiver) for which a must-analysis shows that no nil-capable store happens while an error may be pending and no `return ..., nil` is reached while one may be pending; the bit-set builder is only called under start>=min, end<=max, start<=end, step!=0; on every decision-consistent path with a parsed step and a single parsed start value (also when start/end are two results of one helper) the end handed to the builder is the field maximum (doc.go: 'N/... means N-MAX/...'), independently of the step's value; a parsed step is never the result of a lookup in the field's name table (names are not step sizes); the normaliser succeeds only with a two-sided check of the number of fields; the int->uint conversion of a parsed number is dominated by a non-negativity check; '@every' goes through Every, Every stores a Delay >= 1 s, and ConstantDelaySchedule.Next is t.Add(Delay - t.Nanosecond()). " +
-		"NOT decided: the numerical result of Next as such — that the instant returned is the earliest matching one for every expression, start instant and zone (in particular the day loop's DST midnight fix-ups and repeated hours at fall-back); that Every rounds to whole seconds; the exact bit patterns the builder/range parser produce for ranges, steps ('*/n' losing the star bit) and lists; that the lower bound in the field-count check is the right number; acceptance of oddities such as '*-5' or ','. Shapes the analysis cannot read (a bit-set builder inlined into its caller, the normaliser inlined into Parse, a deferred closure rewriting the error, carries a phase helper reports through something else than a boolean result, a closure that writes search state and reaches its call through a package-level variable, struct field or interface, a closure that keeps the address of a variable it captures, inlining deeper than 6 frames) give UNDECIDED, never VIOLATION."
+		"Search (minimality): for every search loop of Next, from the term of the instant the loop continues with: it continues while the bit is clear, advances by at most one unit (Add/AddDate/Date(field+1)), sets all lower-order fields to their minimum in the same iteration (before the step, for months) without clearing the field being searched itself (a Truncate coarser than the loop's field restarts the search before t), and on a carry goes back to the top of the search; the carry test must look at the instant the loop continues with (no further Add/AddDate between test and next iteration) and must still fire when the smallest value of the field does not exist on the wall clock (DST gap at local midnight / 30-minute DST); a calendar step (AddDate / Date(field+1)) of the month and day loops is followed by an adjustment that reads the stepped instant (the not-midnight fix-up: the local midnight aimed at may not exist), and a day step by a fixed duration (Add) is only accepted if the wall clock is rebuilt after it; in the month and day loops an adjustment that moves the stepped instant BACKWARD (Add of a provably non-positive amount, by interval arithmetic over accessor ranges) — it can fall back out of the month/day just entered when the step landed after a gap, on 01:00 — must either be dropped when the unit (Month()/Day()) of the adjusted and of the unadjusted instant differ, or be followed by a progress guard that compares the unit of the value arrived at with that of the pre-step value and, when they agree, continues from the pre-step value by forward steps only (a walk 'for same day { t = t.Add(hour) }' inside the iteration is read as a recursive term); a month-loop reset time.Date(y, m, 1, 0, ...) that feeds a calendar step must be adjusted in between by something that reads the reset's result (it can be 23:00 of the previous month), or the day of the month be repaired after the step; the search starts exactly at t truncated to the second plus one second, gives up with the zero time only for calendar years beyond start year + 5, converts into SpecSchedule.Location and builds every date in a location that can be the schedule's (SpecSchedule.Location, or the zone of an instant converted into it; the caller's zone alone is a violation); every SpecSchedule of the descriptor function carries the location parameter; Parse stores/hands on the time.LoadLocation result of a TZ=/CRON_TZ= prefix or time.Local. " +
+		"Refusal (E7+E2): every error produced in the parser layer (the static call closure of Parse) is returned, tested with a failing return, or parked in a shared error variable (captured variable, *error parameter, named result, error field of a helper's receiver) for which a must-analysis shows that no nil-capable store happens while an error may be pending and no `return ..., nil` is reached while one may be pending; a loop of the parser layer whose body hands a value of the iteration to code that reaches the bit-set builder (one call per list term, or per column) is left before its sequence is exhausted, or goes round without the call, only on an edge governed by an error's nil test or towards returns that all carry a fresh/tested error — an early exit or skip under a condition on the term at hand or on what earlier terms produced, with a success return behind it, is a violation ('*,99' accepted); skipping empty terms is allowed; the bit-set builder is only called under start>=min, end<=max, start<=end, step!=0; on every decision-consistent path with a parsed step and a single parsed start value (also when start/end are two results of one helper) the end handed to the builder is the field maximum (doc.go: 'N/... means N-MAX/...'), independently of the step's value; a parsed step is never the result of a lookup in the field's name table (names are not step sizes); the normaliser succeeds only with a two-sided check of the number of fields; the int->uint conversion of a parsed number is dominated by a non-negativity check; '@every' goes through Every, Every stores a Delay >= 1 s, and ConstantDelaySchedule.Next is t.Add(Delay - t.Nanosecond()). " +
+		"NOT decided: the numerical result of Next as such — that the instant returned is the earliest matching one for every expression, start instant and zone (in particular the arithmetic of the DST midnight fix-ups, DST shifts that are not whole hours, and repeated hours at fall-back); that the forward walk of a progress guard ends (C07); that Every rounds to whole seconds; the exact bit patterns the builder/range parser produce for ranges, steps ('*/n' losing the star bit) and lists; that the lower bound in the field-count check is the right number; acceptance of oddities such as '*-5' or ','. Shapes the analysis cannot read (a bit-set builder inlined into its caller, the normaliser inlined into Parse, a deferred closure rewriting the error, carries a phase helper reports through something else than a boolean result, a closure that writes search state and reaches its call through a package-level variable, struct field or interface, a closure that keeps the address of a variable it captures, inlining deeper than 6 frames) give UNDECIDED, never VIOLATION."
 	r.Assumptions = append(r.Assumptions,
 		"time.Time accessors, time.Date, Add, AddDate, Truncate, In behave as documented; time zones with a DST gap starting at local midnight (e.g. America/Havana, America/Sao_Paulo before 2019) and with 30-minute DST (Australia/Lord_Howe) exist in the tz database",
 		"field-table values only come from the package-level tables (checked: no other composite literal of that type, no store to the tables outside init)",
@@ -97,6 +97,7 @@ func checkC04(c *Ctx) {
 	r.Rule("C04.P3-matcher", "Next and its callees test SpecSchedule.F with bit 1<<accessor where accessor is the time.Time method of F", 6)
 	r.Rule("C04.N1-either-day", "the day condition of Next == (domStar||dowStar ? dom&&dow : dom||dow) for all 16 assignments (or its negation, with the loop polarity read accordingly)", 1)
 	r.Rule("C04.N2-search", "each search loop of Next: polarity, unit step, lower-order reset before the first step, carry goes back to the top and is detected DST-robustly; calendar steps are followed by a not-midnight adjustment", 20)
+	r.Rule("C04.N2-backstep", "month and day loops: a backward adjustment of the stepped instant is kept only if it stays in the unit stepped into (same-unit test) or is followed by a progress guard with a forward restart; a reset to the 1st that feeds a calendar step is normalised first", 3)
 	r.Rule("C04.N3-limit", "the search gives up (zero time) only for calendar years beyond start year + 5: `year > start+k` needs k >= 5, `year >= start+k` needs k >= 6", 1)
 	r.Rule("C04.D3-location", "every SpecSchedule built by parseDescriptor carries the loc parameter; Parse stores/passes the location parsed from the TZ=/CRON_TZ= prefix, or time.Local without prefix", 9)
 	r.Rule("C04.N4-zone", "Next converts into SpecSchedule.Location, builds wall-clock times only in that location (or t's own for time.Local) and starts from a whole second", 3)
@@ -104,6 +105,7 @@ func checkC04(c *Ctx) {
 	r.Rule("C04.P4-range", "the bit-set builder is called only under start>=min, end<=max, start<=end, step!=0", 8)
 	r.Rule("C04.P5-nstep", "doc.go 'N/... means N-MAX/...': on every consistent path of the range parser with a parsed step and a single parsed start value, the end handed to the bit-set builder is the field maximum, independently of the step's value", 1)
 	r.Rule("C04.P6-numeric-step", "the step of a range never comes from the field's name table (names are not step sizes)", 1)
+	r.Rule("C04.P7-list-terms", "a loop of the parser layer that hands each term (or column) to code reaching the bit-set builder is left early, or skips the call, only on the way to an error — never depending on what earlier terms produced with a success return behind it", 1)
 	r.Rule("C04.P4-count", "the column normaliser succeeds only after a lower and an upper check of the number of fields (possibly in a validation helper)", 2)
 	r.Rule("C04.P4-nonneg", "a parsed number is converted to unsigned only after a non-negativity check", 1)
 	r.Rule("C04.D1-descriptors", "each predefined schedule folds to the encoding of its 'Equivalent To' expression in cron/doc.go", 7)
@@ -123,6 +125,7 @@ func checkC04(c *Ctx) {
 	st.checkRange()
 	st.checkCount()
 	st.checkNonNeg()
+	st.checkListTerms()
 	st.checkDescriptors()
 	st.checkLocation()
 	st.checkEvery()
